@@ -14,19 +14,20 @@ BUDGET = {'quick': 150, 'thorough': 1800}
 CHUNK = 2
 RULE = ('Cases: files of 2..8 samples (C07 sample styles, so that some k-mers are private to deleted samples); for n<=5 '
         'every non-empty proper subset is deleted (exhaustive over subsets), random subsets above; names given on the command '
-        'line or in a names file (one per line; with/without trailing newline; with blank lines between names, where a clean refusal is accepted as well as the exact deletion), in place or with -o.  '
-        'The result is compared with a `ska build` of the remaining samples (differential) and with the model; a quarter of the files first pass through `ska weed --filter-ambig-as-missing` with a one-sample threshold (stored files with a history; model only).  Refusal cases '
+        'line or in a names file (one per line; with/without trailing newline; with blank lines between names, where a clean refusal is accepted as well as the exact deletion), in place, with -o, or with -o naming the input file itself.  A few files per run are large (up to ~100k rows, mostly private k-mers).  '
+        'The result is compared with a `ska build` of the remaining samples (differential) and with the model, and every stored field of the two files (per-row counts, container lengths) is compared through the harness; a quarter of the files first pass through `ska weed --filter-ambig-as-missing` with a one-sample threshold (stored files with a history; model only).  Refusal cases '
         '(unknown name, all names, all names with one of them repeated) must exit non-zero and leave the file byte-identical.  Non-trivial: at least one k-mer '
         'disappears or at least two non-adjacent columns are removed; distinct = distinct (k, mode, samples, subset, route).')
 ASSUMPTIONS = ['sample names are [A-Za-z0-9_]+ ; a share of names end in .fa/.fasta to exercise name handling',
                'the build of the remaining samples is a run of the same binary (differential); the model is independent']
 REQUIRED = {t: ['route:cli', 'route:file', 'route:file-no-trailing-newline', 'route:file-blank-lines', 'inplace', 'with-o',
-                'refuse:unknown', 'refuse:all', 'refuse:all-with-repeat', 'kmers_removed', 'nonadjacent_deletions', 'width64', 'width128', 'pretreated_files']
+                'refuse:unknown', 'refuse:all', 'refuse:all-with-repeat', 'kmers_removed', 'nonadjacent_deletions', 'width64', 'width128', 'pretreated_files',
+                'stored_rows_compared', 'with-o-naming-the-input-file', 'refusals_with-o-naming-the-input-file', 'files_of_4096+_rows']
             for t in ('quick', 'thorough')}
 
 
 def builds(tier):
-    return ['rel', 'chk']
+    return ['rel', 'chk', 'harness']
 
 
 def plan(tier, seed, rng, scale):
@@ -39,9 +40,15 @@ def plan(tier, seed, rng, scale):
         ns = rng.randint(2, 8)
         descs.append({'k': rng.choice(G.ALL_K), 'rc': rng.random() < 0.7, 'ns': ns,
                       'exhaustive': ns <= 5 and (tier == 'thorough' or i % 10 == 0), 'seed': rng.getrandbits(32)})
+    for i in range(int((8 if tier == 'quick' else 60) * max(scale, 0.25))):
+        # large files (thousands to ~100k rows) of mostly unrelated samples: most rows are private to one sample, so that
+        # rows at any place of the stored table (first, last, block boundaries of a chunked pass) vanish with a deletion
+        descs.insert(16 + 3 * i, {'k': rng.choice([15, 21, 31, 33, 41]), 'rc': rng.random() < 0.7, 'ns': rng.randint(3, 4), 'exhaustive': False,
+                                  'large': rng.choice([1500, 2500, 6000, 12000, 25000] if tier == 'quick' else [1500, 6000, 12000, 25000, 40000, 70000]),
+                                  'seed': rng.getrandbits(32)})
     for i, d in enumerate(descs):
-        d['chk'] = (i % 7 == 0)
-        if i % 4 == 2:
+        d['chk'] = (i % 7 == 0) and not d.get('large')
+        if i % 4 == 2 and not d.get('large'):
             d['pretreat'] = {2: '0.5', 3: '0.34', 4: '0.25', 5: '0.2', 6: '0.17', 7: '0.15', 8: '0.125'}[d['ns']]
     return descs
 
@@ -50,7 +57,11 @@ def run_case(desc, ctx):
     res = Result()
     k, rcmode, ns = desc['k'], desc['rc'], desc['ns']
     rng = random.Random(desc['seed'])
-    samples = c07.gen_samples(rng, k, ns)
+    if desc.get('large'):
+        shared = G.rseq(rng, desc['large'] // 10)
+        samples = [[G.rseq(rng, rng.randint(desc['large'] // 2, desc['large'])), shared] for _ in range(ns)]
+    else:
+        samples = c07.gen_samples(rng, k, ns)
     for recs in samples:
         if rng.random() < 0.4:
             # a second, slightly different copy of a record inside the sample: ambiguity codes in the table
@@ -105,6 +116,7 @@ def run_case(desc, ctx):
             keep = [i for i in range(ns) if i not in dn]
             route = rng.choice(['cli', 'file', 'file-no-trailing-newline', 'file-blank-lines'])
             inplace = rng.random() < 0.5
+            samefile = (not inplace) and rng.random() < 0.3       # -o naming the very file given with -s
             ctx.write('work.skf', original)
             dnames = [names[i] for i in dn]
             rng.shuffle(dnames)
@@ -123,9 +135,11 @@ def run_case(desc, ctx):
                 ctx.write('names.txt', txt)
                 src = ['-f', ctx.path('names.txt')]
             oname = rng.choice(['out', 'out', 'kept.v2'])                   # output prefixes with and without dots
+            if samefile:
+                oname = rng.choice(['work', 'work.skf'])
             outargs = [] if inplace else ['-o', ctx.path(oname)]
-            result_file = ctx.path('work.skf') if inplace else ctx.path(oname + '.skf')
-            if os.path.exists(ctx.path(oname + '.skf')):
+            result_file = ctx.path('work.skf') if inplace or samefile else ctx.path(oname + '.skf')
+            if not samefile and os.path.exists(ctx.path(oname + '.skf')):
                 os.remove(ctx.path(oname + '.skf'))
             pd = ctx.sh(b, 'delete', '-s', ctx.path('work.skf'), *outargs, *src)
             if variant == 'chk':
@@ -137,10 +151,15 @@ def run_case(desc, ctx):
                 res.evals += 1
                 res.count('route:' + route)
                 res.count('inplace' if inplace else 'with-o')
+                if samefile:
+                    res.count('with-o-naming-the-input-file')
+                if len(T) >= 4096:
+                    res.count('files_of_4096+_rows')
+                    res.see('large_rows', len(T))
             sig = 'C08:%s' % ('file' if route != 'cli' else 'cli')
             if route == 'file-blank-lines' and pd.returncode != 0:
                 # whether blank lines are tolerated is not stated: a refusal is fine if it leaves the file alone
-                if open(ctx.path('work.skf'), 'rb').read() != original or (not inplace and os.path.exists(result_file)):
+                if open(ctx.path('work.skf'), 'rb').read() != original or (not inplace and not samefile and os.path.exists(result_file)):
                     res.violate(sig + ':blank-refused-but-changed', 'names file with a blank line: exit %d but a file was written' % pd.returncode,
                                 {'names_file': txt})
                 else:
@@ -173,7 +192,16 @@ def run_case(desc, ctx):
             for f in ('k', 'rc', 'k-mers', 'samples', 'sample_kmers'):
                 if hd.get(f) != hr.get(f):
                     bad.append('header %s: %s vs rebuilt %s' % (f, hd.get(f), hr.get(f)))
-            if not inplace and open(ctx.path('work.skf'), 'rb').read() != original:
+            if variant == 'rel' and not pretreated:
+                # every stored field (per-row counts and container lengths included), not only what nk prints
+                sd, sr = G.stored_rows(ctx, result_file), G.stored_rows(ctx, ctx.path('rest.skf'))
+                if sd is None or sr is None or sd != sr:
+                    dd = [] if sd is None or sr is None else [(x, sd[1].get(x), sr[1].get(x)) for x in set(sd[1]) | set(sr[1]) if sd[1].get(x) != sr[1].get(x)]
+                    bad.append('stored object differs from the rebuilt one: header %s vs %s, rows (k-mer, deleted, rebuilt) %s'
+                               % (sd and sd[0], sr and sr[0], dd[:3]))
+                else:
+                    res.count('stored_rows_compared', len(sd[1]))
+            if not inplace and not samefile and open(ctx.path('work.skf'), 'rb').read() != original:
                 bad.append('input file modified although -o was given')
             if bad:
                 res.violate(sig + ':table', 'k=%d rc=%s ns=%d delete=%s route=%s inplace=%s (%s): %s'
@@ -202,8 +230,11 @@ def run_case(desc, ctx):
                     else:
                         ctx.write('names.txt', '\n'.join(dnames) + '\n')
                         src = ['-f', ctx.path('names.txt')]
-                    pd = ctx.sh(b, 'delete', '-s', ctx.path('work.skf'), *src)
+                    same = ['-o', ctx.path('work')] if rng.random() < 0.3 else []
+                    pd = ctx.sh(b, 'delete', '-s', ctx.path('work.skf'), *same, *src)
                     res.evals += 1
+                    if same:
+                        res.count('refusals_with-o-naming-the-input-file')
                     after = open(ctx.path('work.skf'), 'rb').read()
                     if pd.returncode == 0 or after != original:
                         res.violate('C08:refuse:%s:%s' % (what, route),
